@@ -413,6 +413,15 @@ read‑modify‑writes of the shared state) — `snapshot_breaks` is what then h
 theorem generator_sites_are_constructors : locksAvailable = true →
     rngSites.all (fun p => p.2.2) = true := by decide
 
+/-- **the scheduling model's one mutex is all there is**: the only shared-state / synchronisation
+object the library declares (fields, statics, thread-locals, atomics, cells — regenerated from the
+source on every run, tests excluded) is the generator behind its mutex. A second lock, a cache
+behind a lock, a global, a lazily initialised static are outside the model above (lock-order
+inversions, values shared between instances or threads): with one of them the theorems of this file
+no longer describe the code. -/
+theorem generator_mutex_is_the_only_shared_state : locksAvailable = true →
+    syncObjects.map (·.2) = ["Mutex<CsRng>"] := by decide
+
 /-! ## without the discipline -/
 
 /-- a thread that reads the generator in one critical section and writes it back in a later one
